@@ -199,6 +199,10 @@ func (s *seekableDecryptingReader) loadSegment(j int64) error {
 
 	plaintext, err := s.cipher.Open(s.plaintext[:0], nonce, segment, nil)
 	if err != nil {
+		// Open decrypts into the buffer of the cached segment and wipes it when
+		// authentication fails: the cache no longer holds any segment.
+		s.segIndex = -1
+		s.plaintext = s.plaintext[:0]
 		return fmt.Errorf("segment %d decryption failed: %w", j, err)
 	}
 	s.plaintext = plaintext
